@@ -119,6 +119,9 @@ KINDS = {
     # generic messages at BOTH levels: the items' wrong_msg is a message of the list, so the list's own one stays away
     'singlelist_subwrong': dict(make=lambda **kw: SingleListGrader(subgrader=StringGrader(wrong_msg='S'), **kw),
                                 expects=('a,b', 'c,d', 'e,f'), inputs=['b,a', 'c,d', 'z,z', 'a,z', 'c']),
+    # all-or-nothing lists: the rule applies to the ITEM matching only; a complete match still earns the alternative's own credit
+    'singlelist_allornothing': dict(make=lambda **kw: SingleListGrader(subgrader=StringGrader(), partial_credit=False, **kw),
+                                    expects=('a,b', 'c,d', 'e,f'), inputs=['b,a', 'c,d', 'e,f', 'z,z', 'a,z', 'c']),
     # a SUBCLASS of SingleListGrader with its own check_response: list-level alternatives, halves earned separately
     'interval': dict(make=lambda **kw: IntervalGrader(**kw), expects=('[1,2]', '(1,2)', '[3,4)'),
                      inputs=['[1,2]', '{1,2}', '(1,2)', '[3,4)', '[1,2)', '(1,4)', '[0,0]']),
@@ -190,7 +193,7 @@ def judge(full, singles, wrong_msg, where, tag):
 
 
 COMMA_KINDS = ('matrix', 'singlelist', 'singlelist3', 'matrix_entry', 'matrix_suppressed', 'interval', 'singlelist_items',
-               'singlelist_subwrong', 'matrix_shapes_suppressed', 'matrix_shapes_msg')
+               'singlelist_subwrong', 'matrix_shapes_suppressed', 'matrix_shapes_msg', 'singlelist_allornothing')
 
 
 class Alternatives(Family):
@@ -627,6 +630,9 @@ def families(tier):
     fams += [CreditScaling(k) for k in ('string', 'table', 'formula', 'numerical', 'matrix', 'singlelist', 'formula_numbered',
                                         'singlelist3', 'matrix_entry', 'matrix_suppressed', 'string_blank')]
     fams += [CreditScaling(k, credits=(0, 0.25) if tier == 'quick' else None) for k in ('interval', 'singlelist_items')]
+    # ---- partial_credit=False: all-or-nothing item matching, the alternative's own credit still counts
+    fams += [CreditScaling('singlelist_allornothing'), Alternatives('singlelist_allornothing', maxk=(2, 3)),
+             Alternatives('singlelist_allornothing', 'ListGrader', maxk=(2, 3))]
     # ---- falsy expect value; a subclass of SingleListGrader
     fams += [Alternatives('string_blank', maxk=(2, 4)), Alternatives('interval', maxk=(2, 3))]
     # ---- alternatives at two levels of one list grader; generic messages at two levels
